@@ -764,6 +764,6 @@ def runCall (fl : Flags) (b : Block) (conv : Bool := false) : Res :=
   { conform := conform, propNA := true, props := agg ++ [("C05", c05), ("C07", c07), ("C08", c08), ("C10", c10), ("C17", c17), ("C16", c16)],
     stats := [s!"outcome={firstOutcome}", s!"execs={nexec}", s!"convs={fx.convs.length}", s!"depth={depth}",
               s!"class={if fx.exactAll then "exact" else if !fx.underiv.isEmpty then "underiv" else "deriv"}",
-              s!"runs={runs.length}", genStat, premStat] }
+              s!"runs={runs.length}", genStat, premStat, s!"argform={(kv b.head "argform").getD "na"}"] }
 
 end ArgMapper.Driver
